@@ -74,9 +74,10 @@ def gen_case(rng, max_res):
                 dangling_done.add(x["name"])
                 continue
             prefix = rng.choice([">", ">", "+"])
+            token = "0.37%02d" % len(links)          # one distance value per link: lets the oracle see where it applied
             link = dict(atoms=[[a, {"resname": x["name"]}], [prefix + b, {"resname": y["name"]}]],
-                        ixns=[[rng.choice(["bonds", "bonds", "constraints"]), [a, prefix + b], ["1", "0.37"], {}]],
-                        edges=[], nonedges=[], patterns=[])
+                        ixns=[[rng.choice(["bonds", "bonds", "constraints"]), [a, prefix + b], ["1", token], {}]],
+                        edges=[], nonedges=[], patterns=[], c14=dict(kind="inter", x=x["name"], y=y["name"], a=a, prefix=prefix, excl=None))
             if link["ixns"][0][0] == "bonds":
                 link["ixns"][0][2].append("800")
             if syntax == "ff" and rng.random() < 0.15:
@@ -86,7 +87,32 @@ def gen_case(rng, max_res):
                 if prefix + c != prefix + b:
                     link["atoms"].append([prefix + c, {"resname": y["name"]}])
                     link["ixns"].append(["exclusions", [a, prefix + c], [], {}])
+                    link["c14"]["excl"] = c
             links.append(link)
+    # links inside ONE residue: an explicit exclusion line of 3-4 atoms (often the atoms of the block's own line in
+    # reversed or shuffled order: a different set of pairs, first atom against each other), and a bond between two atoms
+    # the block does not bond (side bond / ring closure inside the residue)
+    if syntax == "ff":
+        for x in blocks:
+            names_x = [a["name"] for a in x["atoms"]]
+            own_lines = [item[1] for item in x["ixns"] if item[0] == "exclusions" and len(item[1]) >= 3]
+            if len(names_x) >= 3 and rng.random() < (0.6 if own_lines else 0.15):
+                if own_lines and rng.random() < 0.7:
+                    line = list(reversed(own_lines[0])) if rng.random() < 0.6 else rng.sample(own_lines[0], len(own_lines[0]))
+                else:
+                    line = rng.sample(range(len(names_x)), rng.choice([3, min(4, len(names_x))]))
+                links.append(dict(atoms=[[names_x[i], {"resname": x["name"]}] for i in line],
+                                  ixns=[["exclusions", [names_x[i] for i in line], [], {}]], edges=[], nonedges=[], patterns=[],
+                                  c14=dict(kind="intra-excl", x=x["name"], line=line)))
+    for x in blocks:
+        n = len(x["atoms"])
+        if n >= 3 and rng.random() < 0.25:
+            i, j = rng.sample(range(n), 2)
+            if abs(i - j) >= 2:
+                names_x = [a["name"] for a in x["atoms"]]
+                links.append(dict(atoms=[[names_x[i], {"resname": x["name"]}], [names_x[j], {"resname": x["name"]}]],
+                                  ixns=[["bonds", [names_x[i], names_x[j]], ["1", "0.29", "650"], {}]], edges=[], nonedges=[], patterns=[],
+                                  c14=dict(kind="intra-bond", x=x["name"])))
     # in a file the sections of one block must be contiguous
     for block in blocks:
         order = []
@@ -110,7 +136,7 @@ def gen_case(rng, max_res):
 # ------------------------------------------------------------------------------------------ real run
 
 def parse_itp(text):
-    nrexcl, natoms, edges, listed, section = None, 0, [], [], None
+    nrexcl, natoms, edges, listed, section, params = None, 0, [], [], None, []
     for line in text.splitlines():
         line = line.split(";")[0].strip()
         if not line or line.startswith("#"):
@@ -125,10 +151,50 @@ def parse_itp(text):
             natoms += 1
         elif section in ("bonds", "constraints"):
             edges.append([int(toks[0]) - 1, int(toks[1]) - 1])
+            params.append(toks[2:])
         elif section == "exclusions":
             first = int(toks[0]) - 1
             listed += [[first, int(t) - 1] for t in toks[1:]]
-    return nrexcl, natoms, edges, listed
+    return nrexcl, natoms, edges, listed, params
+
+
+def expected_explicit(case, edges_w, params_w):
+    """the pairs blocks and links exclude explicitly, computed from the abstract force field (GROMACS reading of a line:
+    first atom against each of the others); an inter-residue link's exclusion applies to every adjacent residue pair with its names and resid relation"""
+    own = c10.ownership(case)
+    blocks = {b["name"]: b for b in case["blocks"]}
+    owner = {a: key for key, atoms in own.items() for a in atoms}
+    resname = {key: name for key, _resid, name in case["graph"]["nodes"]}
+    pairs = set()
+
+    def add_line(atoms):
+        for other in atoms[1:]:
+            if other != atoms[0]:
+                pairs.add(tuple(sorted((atoms[0], other))))
+    for key, name in resname.items():
+        for section, idxs, _p, _m in blocks[name]["ixns"]:
+            if section == "exclusions":
+                add_line([own[key][i] for i in idxs])
+    for link in case["links"]:
+        info = link.get("c14")
+        if not info:
+            continue
+        if info["kind"] == "intra-excl":
+            for key, name in resname.items():
+                if name == info["x"]:
+                    add_line([own[key][i] for i in info["line"]])
+        elif info["kind"] == "inter" and info["excl"] is not None:
+            # a two-residue link `a >b` / `a +b` (atoms always present and unique) applies to every pair of ADJACENT residues
+            # with the two names whose resids are in the demanded relation
+            names_x = [a["name"] for a in blocks[info["x"]]["atoms"]]
+            names_y = [a["name"] for a in blocks[info["y"]]["atoms"]]
+            resid = {key: r for key, r, _n in case["graph"]["nodes"]}
+            for u, v, _lt in case["graph"]["edges"]:
+                for i, j in ((u, v), (v, u)):
+                    fits = resid[j] > resid[i] if info["prefix"] == ">" else resid[j] == resid[i] + 1
+                    if resname[i] == info["x"] and resname[j] == info["y"] and fits:
+                        add_line([own[i][names_x.index(info["a"])], own[j][names_y.index(info["excl"])]])
+    return sorted(pairs)
 
 
 def one_case(ctx, case):
@@ -181,7 +247,7 @@ def one_case(ctx, case):
         finally:
             al.expand_excl = original_expand
             mm.tag_exclusions = original_tag
-    nrexcl_w, natoms, edges_w, listed_w = parse_itp(text)
+    nrexcl_w, natoms, edges_w, listed_w, params_w = parse_itp(text)
     own = c10.ownership(case)
     block_e = {b["name"]: b["nrexcl"] for b in case["blocks"]}
     e = []
@@ -195,7 +261,7 @@ def one_case(ctx, case):
         reqs.append(("expand", dict(op="expand", nrexcl=seen["nrexcl"], tags=seen["tags"], edges=seen["edges"])))
     reqs.append(("spec", dict(op="spec", atoms=list(range(natoms)), e=e, edges=edges_w, nrexcl=nrexcl_w, listed=listed_w)))
     return dict(case=case, replay=replay, seen=seen, nrexcl_w=nrexcl_w, natoms=natoms, edges_w=edges_w, listed_w=listed_w,
-                e=e, reqs=reqs)
+                e=e, reqs=reqs, explicit=(expected_explicit(case, edges_w, params_w) if natoms == len(e) else []))
 
 
 def upairs(lines):
@@ -219,7 +285,9 @@ def judge(ctx, item, answers):
         ctx.traces += 1
     # ---- the property on the written molecule
     spec = ans["spec"]
-    explicit = upairs(seen.get("explicit", []))
+    explicit = [tuple(p) for p in item["explicit"]]
+    if explicit != upairs(seen.get("explicit", [])):
+        ctx.tally(explicit_differs_from_molecule_state=True)
     want = sorted(set(map(tuple, spec["want"])) | set(explicit))
     got = sorted(map(tuple, spec["effective"]))
     if item["natoms"] != len(item["e"]):
@@ -284,7 +352,8 @@ def run(ctx):
                             "vermouth write_molecule_itp ([ moleculetype ] nrexcl, [ exclusions ] lines as written)"]
     ctx.assumptions += [
         "exclusion distance of an atom = nrexcl of the block of the residue that owns it (residues in resid order own consecutive atoms)",
-        "explicit exclusions = the exclusions the molecule holds when expand_excl starts (block and link given)",
+        "explicit exclusions = computed from the generated force field: block lines per residue, one-residue link lines per residue of "
+        "that name, and the exclusion of an inter-residue link for every adjacent residue pair with its names and resid relation",
         "generated force fields keep angle/dihedral-consecutive atoms bonded (DESIGN C14 domain note)",
     ]
     ctx.extra["explanation"] = ("oracle = Excl.specPairs ∪ explicit vs Excl.effectivePairs, both evaluated by the Lean driver on the "
